@@ -146,6 +146,49 @@ Theorem C19_xvalidations_agrees_with_v0 : forall se cn te tn rules dn,
 Proof. exact xvalidations_agrees_with_v0. Qed.
 Print Assumptions C19_xvalidations_agrees_with_v0.
 
+(** ---- (6) the include recursion guard of the template function table *)
+
+(** Whatever a template does - any sequence of includes and returns over the helper names [names] - at no
+    point of the render are more than (limit + 1) * |names| includes active; per name never more than
+    limit + 1. (limit = recursionDepth = 1000.) *)
+Theorem C19_include_depth_bounded : forall limit names ops,
+  NoDup names -> (forall n, In (Enter n) ops -> In n names) ->
+  depth (grun Decrement limit ops g_init) <= S limit * List.length names.
+Proof. exact include_depth_bounded. Qed.
+Print Assumptions C19_include_depth_bounded.
+
+Theorem C19_include_per_name_bounded : forall limit ops n,
+  count_occ PeanoNat.Nat.eq_dec (g_stack (grun Decrement limit ops g_init)) n <= S limit.
+Proof. exact include_per_name_bounded. Qed.
+Print Assumptions C19_include_per_name_bounded.
+
+(** REFUTED for the delete-on-exit shape of the guard (seed C19-E; never part of the tree): one helper that
+    includes itself for a call that returns and then includes itself again reaches every depth. *)
+Theorem C19_delete_on_exit_unbounded_refuted : forall limit d, 1 <= limit ->
+  depth (grun Delete limit (leaf_first_ops d) g_init) = d.
+Proof. exact delete_on_exit_unbounded_refuted. Qed.
+Print Assumptions C19_delete_on_exit_unbounded_refuted.
+
+(** the run-time monitor's nesting bound is the one the guard model guarantees *)
+Theorem C19_include_monitor_sound : forall names ops,
+  NoDup names -> (forall n, In (Enter n) ops -> In n names) ->
+  forall o, o <> ObsRunaway -> (forall f, o <> ObsPanic f) ->
+  monitor (ScInclude (N.of_nat (List.length names)) (N.of_nat (depth (grun Decrement include_limit ops g_init))), o) = true.
+Proof. exact include_monitor_sound. Qed.
+Print Assumptions C19_include_monitor_sound.
+
+(** ---- (7) uniqueInScope constraint check of the deployers *)
+
+Theorem C19_check_unique_total : forall has_unique list_ok s, check_unique has_unique list_ok <> Panic s.
+Proof. exact check_unique_total. Qed.
+Print Assumptions C19_check_unique_total.
+
+(** HISTORICAL, F-C19g, fixed by commit 9533cda ("ClusterPackage deployer panicked on uniqueInScope constraints
+    (nil uncached client)"): NewClusterPackageDeployer left uncachedClient unset. *)
+Theorem C19_v0_cluster_deployer_refuted : forall list_ok, check_unique_v0_cluster true list_ok = Panic S_v0_pd_uncachedClient_unset.
+Proof. exact v0_cluster_deployer_refuted. Qed.
+Print Assumptions C19_v0_cluster_deployer_refuted.
+
 (** ---- (5) annotation owner strategy (multi-cluster ObjectSetPhase controllers) - OPEN *)
 
 (** REFUTED (F-C19e, boxcutter, open): owners annotation that is not a JSON list of references, on the
